@@ -71,6 +71,7 @@ type World struct {
 	Torrents  []*tor.Torrent
 	Peers     []*RefPeer
 	Epoch     int // number of quiescent points observed so far
+	Holdable  map[string]map[int]bool // per info-hash: pieces the system can possibly hold
 	ephemeral int
 	cancel    []context.CancelFunc
 	stopped   bool
@@ -420,6 +421,7 @@ func (w *World) AddTorrent(spec *TorSpec, magnet bool, proxy string) (*tor.Torre
 // a download would, and announces them to the torrent.
 func (w *World) Preload(t *tor.Torrent, spec *TorSpec, pieces []int) {
 	for _, i := range pieces {
+		w.noteHoldable(spec, i)
 		p := spec.Piece(i)
 		for off := 0; off < len(p); off += chunkSize {
 			end := min(off+chunkSize, len(p))
@@ -517,4 +519,22 @@ func drawSysLink(st *simrt.Stream) (simnet.LinkCfg, simnet.LinkCfg) {
 		return c
 	}
 	return one(), one()
+}
+
+// MayHold reports whether the system can possibly hold piece i: it was
+// preloaded, or some reference peer or web seed has sent data for it.
+func (w *World) MayHold(spec *TorSpec, i int) bool {
+	return w.Holdable[string(spec.InfoHash)][i]
+}
+
+func (w *World) noteHoldable(spec *TorSpec, i int) {
+	if w.Holdable == nil {
+		w.Holdable = map[string]map[int]bool{}
+	}
+	m := w.Holdable[string(spec.InfoHash)]
+	if m == nil {
+		m = map[int]bool{}
+		w.Holdable[string(spec.InfoHash)] = m
+	}
+	m[i] = true
 }
